@@ -260,6 +260,24 @@ def check_theorems(pid):
     return res
 
 
+def coqchk(pid):
+    """Thorough tier: re-check the compiled property file and everything it depends on with the
+    independent checker and report the axioms of the whole context."""
+    cmd = ('timeout 3000 coqchk -silent -o -Q Model DI -Q Spec DI -Q Proofs DI -Q Properties DI DI.%s' % pid)
+    t0 = time.time()
+    r = sh(cmd, cwd=COQ, timeout=3100)
+    out = r.stdout
+    res = {'cmd': 'coqchk -silent -o ... DI.%s' % pid, 'seconds': round(time.time() - t0, 1), 'ok': False, 'axioms': None}
+    m = re.search(r'\* Axioms:\s*(.*?)\n\s*\n', out, re.S)
+    if r.returncode == 0 and m:
+        res['axioms'] = ' '.join(m.group(1).split())
+        res['ok'] = res['axioms'] == '<none>' and 'type-in-type: <none>' in out and 'unsafe (co)fixpoints: <none>' in out \
+            and 'positivity is assumed: <none>' in out
+    else:
+        res['error'] = out[-2000:]
+    return res
+
+
 # --------------------------------------------------------------------------
 # model client
 
